@@ -2,7 +2,7 @@ SPECIFICATION TSpec
 CONSTANTS
   PercentExact = TRUE
   NewlineByWrites = TRUE
-  MoveUpAfterFirst = TRUE
-  FinishShowsStep = TRUE
+  MoveUpAfterFirst = FALSE
+  FinishDrawsNoMax = TRUE
   ClearCountsRows = TRUE
 INVARIANT TermOK
